@@ -18,7 +18,9 @@ import tempfile
 from vf import simrt
 from vf.core import Check, CaseResult, U, PY, VERIF, REPO
 
-MODES = ['with', 'acq', 'nb', 'timed', 'timed0', 'ctx', 'ctxnb']
+# 'abandon': a private FileLock object on the same path is acquired, used and then simply dropped
+# (garbage collected while held) instead of being released
+MODES = ['with', 'acq', 'nb', 'timed', 'timed0', 'ctx', 'ctxnb', 'abandon']
 
 
 def gen(rng):
@@ -43,7 +45,7 @@ class FlockHarness:
         self.F = F
         self.path = path
 
-    def run(self, scen, strategy):
+    def run(self, scen, strategy, probes=False):
         F = self.F
         path = self.path
 
@@ -84,6 +86,16 @@ class FlockHarness:
                         o = objs[rd['obj']]
                         mode = rd['mode']
                         emit('try', name, rd['obj'], mode)
+                        if mode == 'abandon':
+                            tmp = F.FileLock(path, reentrant=scen['reentrant'])
+                            got = tmp.acquire(timeout=rd['tau'])
+                            if got is True:
+                                section(name, tmp, dict(rd, nest=False))
+                            else:
+                                emit('refused', name, rd['obj'], mode, got)
+                            emit('abandoned', name, got)
+                            del tmp                # __del__ gives the lock back
+                            continue
                         if mode in ('ctx', 'ctxnb'):
                             try:
                                 with (o.acquire_ctx(timeout=rd['tau']) if mode == 'ctx'
@@ -114,8 +126,25 @@ class FlockHarness:
                             emit('refused', name, rd['obj'], mode, got)
                 return body
 
-            for i, spec in enumerate(scen['threads']):
-                s.spawn(worker(i, spec), f'W{i}')
+            ths = [s.spawn(worker(i, spec), f'W{i}') for i, spec in enumerate(scen['threads'])]
+            if probes:
+                s.block(lambda: all(t.st == simrt.DONE for t in ths), None, 'main-join')
+                emit('all_released', [bool(o.is_locked) for o in objs], len(simrt.OSS[0].open_fds))
+
+                def prober():
+                    for i, o in enumerate(objs):
+                        g = o.acquire(blocking=False)
+                        emit('probe', i, g, bool(o.is_locked))
+                        if g is True:
+                            o.release()
+                    fresh = F.FileLock(path)
+                    g = fresh.acquire(blocking=False)
+                    emit('probe', 'fresh', g, bool(fresh.is_locked))
+                    if g is True:
+                        fresh.release()
+                    emit('final_fds', len(simrt.OSS[0].open_fds))
+                p = s.spawn(prober, 'P')
+                s.block(lambda: p.st == simrt.DONE, None, 'main-join2')
 
         r = simrt.execute(main, strategy, max_steps=100000, watchdog=60.0)
         return r
